@@ -224,6 +224,9 @@ func sameMultiset(a, b string) bool {
 // c12Run: quick = every expression evaluation is a scheduling point, one non-default decision. thorough = that
 // pass, then a second pass with the coarser points (locks, wait groups, record boundaries) and two decisions.
 func c12Run(c *core.Ctx) {
+	if os.Getenv("VERIF_C12_FAMILY") != "" {
+		return // development aid: one family of c12_*.go alone
+	}
 	gox.EvalPoints = true
 	defer func() { gox.EvalPoints, gox.LoopPoints = false, false }()
 	c12Pass(c, 1, 1, 1, "")
@@ -334,6 +337,9 @@ func exploreWith(e *gox.Explorer, run func(prefix []int) gox.Execution, visit fu
 }
 
 func c12Replay(c *core.Ctx, payload json.RawMessage) {
+	if c12FamilyReplay(c, payload) {
+		return
+	}
 	var p c12Payload
 	if err := json.Unmarshal(payload, &p); err != nil {
 		fmt.Println(err)
